@@ -82,6 +82,8 @@ def run_case(case, ctx):
         spec.notes['amplitude_threshold'] = [0.5, 0.3][int(rng.integers(0, 2))]     # params.py options
     if rng.random() < 0.2:
         spec.notes['n_closest_channels'] = 4
+    if rng.random() < 0.25:
+        spec.notes['ks2_templates_ind'] = True
     if rng.random() < 0.2:
         spec.notes['template_scaling'] = [20.0, 0.5][int(rng.integers(0, 2))]      # every unwhitened waveform carries this factor
     opts['config'] = {k: spec.notes.get(k) for k in ('amplitude_threshold', 'n_closest_channels')}
